@@ -22,16 +22,22 @@ class Patience(O.Monitor):
         self.bq = 0
         self.uq = 0
 
-    def _ingest(self, Q):
+    def _ingest(self, Q, present=None):
         log = Q.built.samples
         while self.k < len(log):
             tag, t, ind, v = log[self.k]
             self.k += 1
             if tag[0] == "ren":
-                self.pat[(ind, tag[1])] = (t, v)
+                obj = (present or {}).get(ind)
+                nmov = None if obj is None else sum(1 for r in obj.data_records if moving(r))
+                self.pat[(ind, tag[1])] = (t, v, nmov)
 
     def after(self, Q, node, etype, nxt):
-        self._ingest(Q)
+        present = {}
+        for nd in Q.transitive_nodes:
+            for ind in O.customers(nd):
+                present[ind.id_number] = ind
+        self._ingest(Q, present)
         t = Q.current_time
         rep = lambda clause, d: Q.report(self.P, "C13." + clause, etype, d)
         for nd in Q.transitive_nodes:
@@ -39,9 +45,9 @@ class Patience(O.Monitor):
                 key = (ind.id_number, nd.id_number)
                 if key not in self.pat:
                     continue
-                a, p = self.pat[key]
-                if a != ind.arrival_date:
-                    continue            # patience of an earlier visit
+                a, p, nmov = self.pat[key]
+                if a != ind.arrival_date or nmov != sum(1 for r in ind.data_records if moving(r)):
+                    continue            # patience of an earlier visit (zero-time self-loops re-enter at the same instant)
                 if not O.live(nd, ind) and ind.service_start_date is False and not self._started(ind, nd, a):
                     due = a + p
                     if due < t:
